@@ -293,6 +293,7 @@ fn run_unit(tier: &str, unit: usize, out: &mut Out) {
     if unit == n_main {
         if tier != "quick" {
             realtime_crosscheck(out);
+            realtime_created_crosscheck(out);
         }
         return;
     }
@@ -405,10 +406,74 @@ fn realtime_crosscheck(out: &mut Out) {
     }
 }
 
+/// Second conformance check of the seam (real time, thorough tier, decides nothing by itself):
+/// the period a file belongs to is the one in which it was *created*, also when its content
+/// reaches it later. Buffered mode, Age::Second, append: a record is logged in second s0, the
+/// logger is shut down (and thereby the buffer written) in second s1, and a restart with append
+/// logs another record still in s1: the two records must be in different files.
+fn realtime_created_crosscheck(out: &mut Out) {
+    for naming in NG {
+        let sc = crate::scratch::Scratch::new("c09rc");
+        let dir = sc.path().join("d");
+        std::fs::create_dir_all(&dir).ok();
+        let mut cfg = Cfg::rot(CritK::Age(AgeK::Second), naming, CleanK::Never);
+        cfg.mode = crate::lg::ModeK::BufDont(4096);
+        cfg.append = true;
+        let err = sc.path().join("err.log");
+        crate::hooks::set_ctx(None);
+        // start early in a second
+        while Local::now().timestamp_subsec_millis() > 150 {
+            std::thread::sleep(Duration::from_millis(20));
+        }
+        let Ok((logger, handle)) = cfg.build_logger(&dir, &err) else { continue };
+        let m0 = lg::payload(0, 0, LINE - 1);
+        lg::log_info(&*logger, &m0);
+        let s0 = Local::now().timestamp();
+        while Local::now().timestamp() == s0 || Local::now().timestamp_subsec_millis() < 100 {
+            std::thread::sleep(Duration::from_millis(20));
+        }
+        handle.shutdown();
+        drop(logger);
+        drop(handle);
+        let Ok((logger, handle)) = cfg.build_logger(&dir, &err) else { continue };
+        let m1 = lg::payload(0, 1, LINE - 1);
+        lg::log_info(&*logger, &m1);
+        let s1 = Local::now().timestamp();
+        handle.shutdown();
+        drop(logger);
+        drop(handle);
+        out.evaluations += 1;
+        if s1 != s0 + 1 {
+            out.count("realtime_created_crosschecks_inconclusive", 1);
+            continue;
+        }
+        let scan = family::scan(&dir, &cfg.parts, None, cfg.naming(), &[]);
+        let mut file_of: std::collections::HashMap<String, usize> = std::collections::HashMap::new();
+        if let Ok(cs) = scan.contents(&dir) {
+            for (fi, (_, content)) in cs.iter().enumerate() {
+                for l in family::split_lines(content, "\n").0 {
+                    file_of.insert(l, fi);
+                }
+            }
+        }
+        if file_of.len() == 2 && file_of.get(&m0) != file_of.get(&m1) {
+            out.count("realtime_created_crosschecks_ok", 1);
+        } else {
+            out.violation(Violation::new(
+                "realtime-crosscheck",
+                format!("created/{}", naming.short()),
+                format!("real-time run, {naming:?}, BufferDontFlush, Age::Second, append: a record logged in second {s0} (written to its file by the shutdown in second {s1}) and a record logged after a restart in second {s1} are in {file_of:?}; files {:?}", scan.names()),
+                json!({"realtime": naming.short()}),
+            ));
+        }
+    }
+}
+
 fn replay(case: &Value) -> Vec<Violation> {
     if case.get("realtime").is_some() {
         let mut out = Out::default();
         realtime_crosscheck(&mut out);
+        realtime_created_crosscheck(&mut out);
         return out.violations;
     }
     let unit = case["unit"].as_u64().unwrap_or(0) as usize;
